@@ -159,7 +159,36 @@ def _fam_nested_fn(n):
         src += "  " * (i + 1) + "f%d()\n" % (i + 1) if i + 1 < n else ""
     return None
 
+def _fam_import_items(n):
+    return "x = from number import %s\nprint size(x), x[%d] == number.pi\n" % (", ".join(["pi"] * n), n - 1), "(%d, true)" % n if n > 1 else None
+def _fam_debug_statements(n):
+    return "f = ||\n" + "  debug 1\n" * n + "  'done'\nr = f()\nprint r\n", "done"
+def _fam_nested_args_leading(n):
+    names = ", ".join("a%d" % i for i in range(n))
+    return "f = |(first..., %s)| (size(first), a%d)\nprint f((9, 9, %s))\n" % (names, n - 1, ", ".join(str(i) for i in range(n))), "(2, %d)" % (n - 1)
+def _fam_nested_args_trailing(n):
+    names = ", ".join("a%d" % i for i in range(n))
+    return "f = |(%s, rest...)| (size(rest), a%d)\nprint f((%s, 9, 9))\n" % (names, n - 1, ", ".join(str(i) for i in range(n))), "(2, %d)" % (n - 1)
+def _fam_match_nested_leading(n):
+    names = ", ".join("a%d" % i for i in range(n))
+    return "r = match (9, 9, %s)\n  (..., %s) then a%d\n  else 'miss'\nprint r\n" % (", ".join(str(i) for i in range(n)), names, n - 1), str(n - 1)
+def _fam_match_alternatives(n):
+    return "r = match %d\n  %s then 'hit'\n  else 'miss'\nprint r\n" % (n - 1, " or ".join(str(i) for i in range(n))), "hit"
+def _fam_try_break_depth(n):
+    # break out of n nested try blocks inside a loop, then throw: no stale catch point may catch it
+    src = "r = []\nfor i in 0..2\n"
+    for d in range(n):
+        src += "  " * (d + 1) + "try\n"
+    src += "  " * (n + 1) + "if i == 1\n" + "  " * (n + 2) + "break\n" + "  " * (n + 1) + "r.push i\n"
+    for d in range(n - 1, -1, -1):
+        src += "  " * (d + 1) + "catch e%d\n" % d + "  " * (d + 2) + "r.push 'stale'\n"
+    src += "x = try\n  throw 'after'\ncatch e\n  'caught'\nprint x, r\n"
+    return src, "('caught', [0])"
+
 FAMILIES = {
+    "import_items": (_fam_import_items, "reg"), "debug_statements": (_fam_debug_statements, "reg"), "nested_args_leading": (_fam_nested_args_leading, "reg"),
+    "nested_args_trailing": (_fam_nested_args_trailing, "reg"), "match_nested_leading": (_fam_match_nested_leading, "reg"), "match_alternatives": (_fam_match_alternatives, "reg"),
+    "try_break_depth": (_fam_try_break_depth, "small"),
     "locals": (_fam_locals, "reg"), "args": (_fam_args, "reg"), "call_args": (_fam_call_args, "reg"), "captures": (_fam_captures, "reg"),
     "defaults": (_fam_defaults, "reg"), "depth": (_fam_depth, "reg"), "list": (_fam_list, "big"), "tuple": (_fam_tuple, "big"), "map": (_fam_map, "big"),
     "match_arms": (_fam_match_arms, "big"), "switch_arms": (_fam_switch_arms, "big"), "interp": (_fam_interp, "big"), "strings": (_fam_strings, "big"),
@@ -171,6 +200,8 @@ def _grid(kind, tier):
     reg = [1, 2, 3, 8, 16, 32, 64, 100, 120, 126, 127, 128, 129, 130, 200, 250, 251, 252, 253, 254, 255, 256, 257, 258, 300, 512]
     if kind == "reg":
         return reg
+    if kind == "small":
+        return [1, 2, 3, 5, 8, 16, 32]
     if kind == "big":
         g = reg + [1000, 4096, 16382, 16383, 16384, 16385, 16386]
         if tier == "thorough":
@@ -196,6 +227,8 @@ def _limits_shard(shard, n, tier, seed, budget_s):
         if idx % n != shard:
             continue
         src, expected = fn(k)
+        if expected is None:
+            continue
         rep["evaluations"] += 1
         rep["limit_points"] += 1
         r = w.exec(src, timeout=60, limit_ms=20000)
@@ -207,6 +240,8 @@ def _limits_shard(shard, n, tier, seed, budget_s):
             continue
         if out == "ok":
             got = (r.get("stdout") or "").strip()
+            if name == "debug_statements":
+                got = got.split("\n")[-1]      # the debug lines share the captured stream
             if got != expected:
                 rep["violations"].append({"key": "limit-misbehaves:%s" % name, "summary": "%s compiled but printed %r instead of %r" % (origin, got[:60], expected),
                                           "case": {"src_head": src[:300], "family": name, "n": k, "got": got[:200], "expected": expected}})
